@@ -20,7 +20,7 @@ RULE = ('Fixed-shape unstructured meshes (2x2 and 3x2 lattices with drawn diagon
         'of jax.hessian of the energy w.r.t. the full nodal field; symmetry; single- vs multi-block equality. Non-trivial: non-zero '
         'displacement with at least one constrained and one unconstrained dof (and evolved state for path-dependent models).')
 ASSUMPTIONS = ['jax.hessian of the library energy is the reference second derivative (AD of the energy as a whole vs the element-wise assembly path)',
-               'the factories are called inside one compiled function per (factory, material, option, mesh shape) with the FunctionSpace as argument',
+               'single-block / dynamics factories are called inside one compiled function per (factory, material, option, mesh shape) with traced coordinates and constants; pressure-projection and multi-block factories are built eagerly per case (they need concrete values)',
                'tolerance max|K-H| <= 1e-9 max|H|, block split 1e-12 relative']
 
 _C = {}
